@@ -282,20 +282,29 @@ def run_check(prop, spec, tier, replay=None):
             for v in mv:
                 violations.append({"machine": kf["id"], "cfg": cfg, "md": md, "ops": ops, "why": v})
         stats.traces += 1
-    # 2. corpus + seeded random machines
+    # 2. corpus + seeded random machines (or the property's own runner)
     n = spec["n_quick"] if tier == "quick" else spec["n_thorough"]
-    nops = spec.get("nops", 14)
-    cases = []
-    for name, g, md in machines_for(spec["profile"], seed, n):
-        opss = [spec["ops"](g, md, nops) if spec.get("ops") else g.gen_ops(md, nops) for _ in range(spec.get("nlists", 3))]
-        for c in spec["cfgs"]:
-            cases.append((name, md, c, opss))
-    for nm in spec.get("corpus", []):
-        p = os.path.join(VERIF, "corpus", nm + ".json")
-        d = json.load(open(p))
-        for c in d.get("cfgs", spec["cfgs"]):
-            cases.append((nm, d["md"], c, [[normalize_op(o) for o in ops] for ops in d["ops"]]))
-    mm, vv = run_cases(prop, spec, cases, stats, log)
+    if spec.get("custom") == "puml":
+        import pumlcheck
+        mm, vv = pumlcheck.run(seed, n, stats)
+    elif spec.get("custom") == "store":
+        import storecheck
+        mm, vv = storecheck.run(seed, n, stats)
+        mm2, vv2 = storecheck.run_machines(seed, 1 if tier == "quick" else 10, stats)
+        mm += mm2; vv += vv2
+    else:
+        nops = spec.get("nops", 14)
+        cases = []
+        for name, g, md in machines_for(spec["profile"], seed, n):
+            opss = [spec["ops"](g, md, nops) if spec.get("ops") else g.gen_ops(md, nops) for _ in range(spec.get("nlists", 3))]
+            for c in spec["cfgs"]:
+                cases.append((name, md, c, opss))
+        for nm in spec.get("corpus", []):
+            p = os.path.join(VERIF, "corpus", nm + ".json")
+            d = json.load(open(p))
+            for c in d.get("cfgs", spec["cfgs"]):
+                cases.append((nm, d["md"], c, [[normalize_op(o) for o in ops] for ops in d["ops"]]))
+        mm, vv = run_cases(prop, spec, cases, stats, log)
     mismatches += mm
     violations += vv
     # 3. verdict
@@ -319,6 +328,9 @@ def run_check(prop, spec, tier, replay=None):
         for m in mismatches:
             if m["kind"] != "trace":
                 continue
+            if m.get("md") is None:
+                found = (m, m["ops"], {"first_diff": m["detail"]})
+                break
             try:
                 ops = minimise(m["md"], m["cfg"], m["ops"], diff_fails)
                 r = corr.compare(m["md"], m["cfg"], ops)
